@@ -19,6 +19,18 @@ pub enum Op {
     Store(usize, bool),
     Exit,
     Yield,
+    /// non-blocking send: always enabled; full / disconnected / accepted is decided when it is performed
+    TrySend(usize),
+    /// non-blocking receive: always enabled
+    TryRecv(usize),
+    /// receive with a time limit: always enabled; on an empty channel with live senders it returns `Timeout` - an
+    /// environment answer (the timer lands first), so the default policy runs such a thread only when nothing else
+    /// can run and every other placement of the timeout costs one deviation
+    RecvTimeout(usize),
+    /// send with a time limit (same treatment, on a full channel with live receivers)
+    SendTimeout(usize),
+    /// len / is_empty / is_full
+    Query(usize),
 }
 
 #[derive(Clone, Debug, PartialEq, Eq)]
@@ -146,11 +158,31 @@ impl Inner {
             _ => true,
         }
     }
+    /// The operation would end with `Timeout` if performed now (the timer lands before the other side acts).
+    fn would_time_out(&self, op: &Op) -> bool {
+        match op {
+            Op::RecvTimeout(c) => {
+                let ch = &self.chans[*c];
+                ch.len == 0 && ch.senders > 0
+            }
+            Op::SendTimeout(c) => {
+                let ch = &self.chans[*c];
+                ch.receivers > 0 && ch.cap.map_or(false, |cap| ch.len >= cap)
+            }
+            _ => false,
+        }
+    }
+    fn is_lazy(&self, i: usize) -> bool {
+        let t = &self.threads[i];
+        t.name.starts_with("Signal") || matches!(&t.status, ThreadStatus::Pending(op) if self.would_time_out(op))
+    }
     fn enabled_set(&self, running: usize) -> (Vec<usize>, bool) {
         let mut v = Vec::new();
         let mut running_enabled = false;
         if let ThreadStatus::Pending(op) = &self.threads[running].status {
-            if self.op_enabled(op) {
+            // (a lazy environment thread that has been started goes on like any other; an operation that would time
+            // out is deferred even in the running thread)
+            if self.op_enabled(op) && !self.would_time_out(op) {
                 v.push(running);
                 running_enabled = true;
             }
@@ -162,7 +194,7 @@ impl Inner {
             for k in 0..n {
                 let i = if self.policy.descending { n - 1 - k } else { k };
                 let t = &self.threads[i];
-                if i == running || t.name.starts_with("Signal") != lazy {
+                if (i == running && running_enabled) || self.is_lazy(i) != lazy {
                     continue;
                 }
                 if let ThreadStatus::Pending(op) = &t.status {
@@ -192,6 +224,11 @@ impl Inner {
                     Op::Store(f, v) => 700 + 2 * *f as u64 + *v as u64,
                     Op::Exit => 4,
                     Op::Yield => 5,
+                    Op::TrySend(c) => 800 + *c as u64,
+                    Op::TryRecv(c) => 900 + *c as u64,
+                    Op::RecvTimeout(c) => 1000 + *c as u64,
+                    Op::SendTimeout(c) => 1100 + *c as u64,
+                    Op::Query(c) => 1200 + *c as u64,
                 },
             };
             fnv(&mut h, code);
